@@ -388,3 +388,25 @@ Proof.
   intros Hn Hl Ho. destruct (regen_lookup outdir old fresh fn lines Hn Hl) as [_ H2]. cbv zeta in H2. rewrite H2.
   destruct (old fn) as [| |c]; [reflexivity|reflexivity|]. rewrite Ho. reflexivity.
 Qed.
+
+(* C02: the regenerated file depends on the OLD file only through the blocks that survive -- two old files (of any two
+   old models, with any text outside their tags) whose surviving blocks agree regenerate to the same bytes. *)
+Lemma on_disk_ext (f g : string -> list string) its : (forall k, f k = g k) -> on_disk f its = on_disk g its.
+Proof.
+  intros E. unfold on_disk. f_equal. unfold written_items. induction its as [|it its IH]; [reflexivity|].
+  cbn [flat_map]. rewrite IH. destruct it as [l|o c]; [reflexivity|]. rewrite E. reflexivity.
+Qed.
+
+Corollary old_model_irrelevant path (u1 u2 : string -> list string) its1 its2 fresh' its' :
+  wfb its1 = true -> items_okb its1 = true -> (forall k, block_ok (u1 k) = true) ->
+  wfb its2 = true -> items_okb its2 = true -> (forall k, block_ok (u2 k) = true) ->
+  parse_items fresh' = Some its' -> Forall (wf_fresh_item kof kpfx) its' ->
+  (forall k, (if memk String.eqb k (pair_keys kof its1) then u1 k else [])
+           = (if memk String.eqb k (pair_keys kof its2) then u2 k else [])) ->
+  fst (regen_file path fresh' (on_disk u1 its1)) = fst (regen_file path fresh' (on_disk u2 its2)).
+Proof.
+  intros W1 I1 B1 W2 I2 B2 P F E.
+  rewrite (regen_file_evolution path u1 its1 fresh' its' W1 I1 B1 P F).
+  rewrite (regen_file_evolution path u2 its2 fresh' its' W2 I2 B2 P F).
+  apply on_disk_ext. exact E.
+Qed.
